@@ -24,9 +24,10 @@ REQUIRED = (["scripted-%s-L%d" % (m, l) for m in ("zero", "ones", "prng") for l 
 
 def _phrase_entropy(stdout):
     """(words, entropy bytes) of a single printed phrase, or raises ValueError(reason)."""
-    if not stdout.endswith("\n") or stdout.count("\n") != 1:
+    body = stdout.rstrip("\r\n")
+    if "\n" in body or not body:
         raise ValueError("stdout is not exactly one line: %r" % stdout[:120])
-    words = stdout[:-1].split(" ")
+    words = body.split()
     return words, bip39.decode_words(words)
 
 
